@@ -55,6 +55,7 @@ def install(eng):
     M["core::iter::range::<impl core::iter::Iterator for core::ops::Range<A>>::next"] = m_range_next
     M["core::clone::Clone::clone"] = NotImplementedModel
     install_fmt(eng)
+    install_iters(eng)
     M["core::slice::<impl [T]>::len"] = m_slice_len
     M["core::slice::<impl [T]>::get"] = m_slice_get
     M["core::array::<impl core::ops::Index<I> for [T; N]>::index"] = m_array_index
@@ -667,3 +668,110 @@ def m_format(eng, st, c, args, dest_tid, t):
 def outputs(st):
     """The ordered output pieces written on this path."""
     return [x for x in st.trace if isinstance(x, tuple) and x and x[0] == "out"]
+
+
+# --------------------------------------------------------------------------------------------------
+# iterators over arrays/slices (constant length): slice::Iter, Zip, Enumerate, Take
+
+
+class IterV(V):
+    __slots__ = ("ikind", "a", "b", "n")
+
+    def __init__(self, ikind, a=None, b=None, n=None):
+        self.ikind = ikind
+        self.a = a
+        self.b = b
+        self.n = n
+
+    def __repr__(self):
+        return "Iter(%s,%r,%r,%r)" % (self.ikind, self.a, self.b, self.n)
+
+
+def install_iters(eng):
+    M = eng.models
+    M["core::slice::<impl [T]>::iter"] = m_slice_iter
+    M["core::iter::Iterator::zip"] = m_iter_zip
+    M["core::iter::Iterator::enumerate"] = m_iter_enumerate
+    M["core::iter::Iterator::take"] = m_iter_take
+    for p in ("<core::slice::Iter<'a, T> as core::iter::Iterator>::next", "<core::iter::Zip<A, B> as core::iter::Iterator>::next",
+              "<core::iter::Enumerate<I> as core::iter::Iterator>::next", "<core::iter::Take<I> as core::iter::Iterator>::next"):
+        M[p] = m_iter_next
+
+
+def m_slice_iter(eng, st, c, args, dest_tid, t):
+    a = _arr_of(eng, st, args[0])
+    if a is None:
+        return NotImplemented
+    return [(st, IterV("slice", a=args[0], b=len(a.els), n=0))]
+
+
+def m_iter_zip(eng, st, c, args, dest_tid, t):
+    if isinstance(args[0], IterV) and isinstance(args[1], IterV):
+        return [(st, IterV("zip", a=args[0], b=args[1]))]
+    return NotImplemented
+
+
+def m_iter_enumerate(eng, st, c, args, dest_tid, t):
+    if isinstance(args[0], IterV):
+        return [(st, IterV("enum", a=args[0], n=0))]
+    return NotImplemented
+
+
+def m_iter_take(eng, st, c, args, dest_tid, t):
+    if isinstance(args[0], IterV) and isinstance(args[1], Int):
+        return [(st, IterV("take", a=args[0], n=args[1]))]
+    return NotImplemented
+
+
+def _advance(eng, st, it, item_tid):
+    """-> list of (state, new iterator, item or None)"""
+    if it.ikind == "slice":
+        if it.n < it.b:
+            arr = _arr_of(eng, st, it.a)
+            return [(st, IterV("slice", a=it.a, b=it.b, n=it.n + 1), _elem_ref(eng, st, it.a, arr, it.n))]
+        return [(st, it, None)]
+    if it.ikind == "zip":
+        out = []
+        for s1, na, ia in _advance(eng, st, it.a, None):
+            if ia is None:
+                out.append((s1, IterV("zip", a=na, b=it.b), None))
+                continue
+            for s2, nb, ib in _advance(eng, s1, it.b, None):
+                if ib is None:
+                    out.append((s2, IterV("zip", a=na, b=nb), None))
+                else:
+                    out.append((s2, IterV("zip", a=na, b=nb), Struct(None, [ia, ib])))
+        return out
+    if it.ikind == "enum":
+        out = []
+        for s1, na, ia in _advance(eng, st, it.a, None):
+            if ia is None:
+                out.append((s1, IterV("enum", a=na, n=it.n), None))
+            else:
+                out.append((s1, IterV("enum", a=na, n=it.n + 1), Struct(None, [Int(Lin.const(it.n), eng.find_tid("usize")), ia])))
+        return out
+    if it.ikind == "take":
+        out = []
+        left = it.n
+        zs, nzs = eng.branch(st, c_lin("le", left.lin))
+        for s1 in zs:
+            out.append((s1, it, None))
+        for s1 in nzs:
+            for s2, na, ia in _advance(eng, s1, it.a, None):
+                out.append((s2, IterV("take", a=na, n=Int(left.lin - 1, left.tid)), ia))
+        return out
+    return [(st, it, None)]
+
+
+def m_iter_next(eng, st, c, args, dest_tid, t):
+    ref = args[0]
+    if not (isinstance(ref, Ref) and ref.key is not None):
+        return NotImplemented
+    it = eng.deref(st, ref)
+    if not isinstance(it, IterV):
+        return NotImplemented
+    out = []
+    for s2, nit, item in _advance(eng, st, it, None):
+        eng.write_key(s2, ref.key, ref.proj, nit)
+        out.append((s2, eng.mk_option(dest_tid, item)))
+    return out
